@@ -53,8 +53,9 @@ OBJ_FAMS = ['OO', 'OI', 'OL', 'OU', 'OQ', 'IO', 'LO', 'UO', 'QO']
 
 
 def bounds(tier):
-    return ('quick: OO, OI, IO x 4 kinds: trees N=4 @2/2 full catalogue + every comparison fault, N=5 @2/2 '
-            'and N=4 @3/2 without faults, thinning space of 7 keys; leaves N=4; other object families N=3; '
+    return ('quick: OO, OI, IO x 4 kinds: trees N=4 @2/2 and 3/2 and N=5 @2/2 full catalogue + every '
+            'comparison fault, thinning space of 7 keys; leaves N=4; the other six object families N=4 '
+            'with faults; '
             'data-manager variant N=4; thorough: all 9 object families, N=5 with faults, N=6 without, '
             'thinning spaces of 9 keys')
 
@@ -929,8 +930,8 @@ def configs(tier):
             if fam in deep:
                 if tier == 'quick':
                     out.append((fam, kind, (2, 2), 4, None, True, 60))
-                    out.append((fam, kind, (3, 2), 4, None, False, 15))
-                    out.append((fam, kind, (2, 2), 5, None, False, 80))
+                    out.append((fam, kind, (3, 2), 4, None, True, 40))
+                    out.append((fam, kind, (2, 2), 5, None, fam == 'OO' or kind == 'BTree', 560))
                     out.append((fam, kind, (2, 2), 7, 'asc', False, 60))
                 else:
                     out.append((fam, kind, (2, 2), 5, None, True, 900))
@@ -940,7 +941,7 @@ def configs(tier):
                     out.append((fam, kind, (2, 2), 9, 'asc', False, 600))
                     out.append((fam, kind, (2, 2), 9, 'desc', False, 600))
             else:
-                out.append((fam, kind, (2, 2), 3, None, True, 10))
+                out.append((fam, kind, (2, 2), 4 if tier == 'quick' else 5, None, True, 60))
     return out
 
 
